@@ -879,7 +879,6 @@ func checkC20(c *Ctx) {
 	}
 }
 
-
 // checkReturningCursor: RETURNING rows are assigned to the in-memory records (Append/Replace of new and
 // existing targets in one call, batch Create with DB-generated keys) through the cursor db.RowsAffected: it
 // advances - also past records that hit ON CONFLICT DO NOTHING - only while a returned row is pending, i.e.
